@@ -41,6 +41,13 @@ type gramLevel struct {
 	fn     *ssa.Function
 	ops    map[opTok]bool
 	callsF map[string][]ssa.CallInstruction // callee name -> sites
+	// a level may delegate to a helper that takes the operand parser and the operator spelling as parameters
+	// (tol_T1.go): the helper's body is read as part of the level, with its parameters instantiated by the
+	// arguments of the level's call site
+	callee map[string]*ssa.Function     // callee name -> function (also for calls through an instantiated parameter)
+	bodies []*levelBody                 // the level's own function and the helpers it is read through
+	bind   map[*ssa.Parameter]ssa.Value // helper parameter -> argument at the level's call site
+	ambig  map[*ssa.Parameter]bool      // helper parameter instantiated differently by two sites: not resolved
 }
 
 func tokenTypeName(p *Prog, v ssa.Value) string {
@@ -59,30 +66,9 @@ func tokenTypeName(p *Prog, v ssa.Value) string {
 }
 
 func extractLevel(p *Prog, f *ssa.Function) *gramLevel {
-	gl := &gramLevel{fn: f, ops: map[opTok]bool{}, callsF: map[string][]ssa.CallInstruction{}}
-	for _, b := range f.Blocks {
-		for _, in := range b.Instrs {
-			ci, ok := in.(ssa.CallInstruction)
-			if !ok || ci.Common().StaticCallee() == nil || !p.InPkg(ci.Common().StaticCallee()) {
-				continue
-			}
-			callee := ci.Common().StaticCallee()
-			args := ci.Common().Args
-			switch callee.Name() {
-			case "Match", "Peek":
-				if s, isC := constString(args[2]); isC {
-					gl.ops[opTok{tokenTypeName(p, args[1]), s}] = true
-				}
-			case "MatchOne", "PeekOne":
-				if strs, ok := constStringSlice(args[2]); ok {
-					for _, s := range strs {
-						gl.ops[opTok{tokenTypeName(p, args[1]), s}] = true
-					}
-				}
-			}
-			gl.callsF[callee.Name()] = append(gl.callsF[callee.Name()], ci)
-		}
-	}
+	gl := &gramLevel{fn: f, ops: map[opTok]bool{}, callsF: map[string][]ssa.CallInstruction{}, callee: map[string]*ssa.Function{},
+		bind: map[*ssa.Parameter]ssa.Value{}, ambig: map[*ssa.Parameter]bool{}}
+	gl.scan(p, &levelBody{fn: f})
 	return gl
 }
 
@@ -164,8 +150,8 @@ func ruleC07Grammar(p *Prog, a *Anchors, r *Report) map[string]*gramLevel {
 		mid := ""
 		if sameOps(gl.ops, orOps) {
 			for c, sites := range gl.callsF {
-				f := sites[0].Common().StaticCallee()
-				if c != "ParseExpression" && f.Signature.Recv() != nil && f.Signature.Results().Len() == 2 && strings.HasPrefix(strings.ToLower(c), "parse") {
+				f := gl.callee[c]
+				if c != "ParseExpression" && f != nil && len(sites) > 0 && f.Signature.Recv() != nil && f.Signature.Results().Len() == 2 && strings.HasPrefix(strings.ToLower(c), "parse") {
 					if mid != "" && mid != c {
 						mid = "?"
 					} else if mid == "" {
@@ -239,7 +225,7 @@ func ruleC07Grammar(p *Prog, a *Anchors, r *Report) map[string]*gramLevel {
 			sites := gl.callsF[s.rhs[0]]
 			nLoop := 0
 			for _, c := range sites {
-				if inLoop(c.(ssa.Instruction)) {
+				if gl.inLoop(c.(ssa.Instruction)) {
 					nLoop++
 				}
 			}
@@ -250,9 +236,9 @@ func ruleC07Grammar(p *Prog, a *Anchors, r *Report) map[string]*gramLevel {
 				r.Bad(s.name+":assoc", pos, "level %s is not parsed left-associatively (operand calls %d, in loop %d, self-recursive %v): a-b-c would nest to the right", s.name, len(sites), nLoop, selfCall)
 			}
 			// the loop builds the new node with the previous node as FIRST operand
-			checkLeftNesting(p, r, f, s.name)
+			checkLeftNesting(p, r, gl, s.name)
 		case "right":
-			if len(gl.callsF[s.name]) >= 1 && !inLoop(gl.callsF[s.name][0].(ssa.Instruction)) {
+			if len(gl.callsF[s.name]) >= 1 && !gl.inLoop(gl.callsF[s.name][0].(ssa.Instruction)) {
 				r.OK(s.name+":assoc", pos, "right operand parsed by a self-call (right-associative)")
 			} else {
 				r.Bad(s.name+":assoc", pos, "level %s does not parse its right operand by a self-call: ^ (and chains) would associate to the left", s.name)
@@ -264,7 +250,7 @@ func ruleC07Grammar(p *Prog, a *Anchors, r *Report) map[string]*gramLevel {
 		terms := gl.callsF["parseTerm"]
 		var first ssa.Instruction
 		for _, c := range terms {
-			if !inLoop(c.(ssa.Instruction)) {
+			if !gl.inLoop(c.(ssa.Instruction)) {
 				first = c.(ssa.Instruction)
 			}
 		}
@@ -287,13 +273,15 @@ func ruleC07Grammar(p *Prog, a *Anchors, r *Report) map[string]*gramLevel {
 
 // checkLeftNesting: inside the loop of a left-associative level the new node's FIRST operand field is the
 // previous node.
-func checkLeftNesting(p *Prog, r *Report, f *ssa.Function, name string) {
-	// find stores to a first-operand field (term1/factor1) whose value is a MakeInterface of the loop-carried node
+func checkLeftNesting(p *Prog, r *Report, gl *gramLevel, name string) {
+	// find stores to a first-operand field (term1/factor1) whose value is a MakeInterface of the loop-carried node;
+	// the loop may be the one of a helper the level delegates to
+	f := gl.fn
 	found, ok := false, true
-	for _, b := range f.Blocks {
-		for _, in := range b.Instrs {
+	for _, in := range gl.instrs() {
+		{
 			st, isSt := in.(*ssa.Store)
-			if !isSt || !inLoop(in) {
+			if !isSt || !gl.inLoop(in) {
 				continue
 			}
 			fa, isFA := st.Addr.(*ssa.FieldAddr)
@@ -453,6 +441,17 @@ func operandOrdinal(p *Prog, v ssa.Value, en evalNode, depth int) int {
 		return operandOrdinal(p, x.X, en, depth+1)
 	case *ssa.MakeInterface:
 		return operandOrdinal(p, x.X, en, depth+1)
+	case *ssa.Parameter:
+		// a helper (unexported, only called statically) the operands are handed to: what every call site passes
+		o := 0
+		for _, act := range paramActuals(p, x) {
+			oo := operandOrdinal(p, act, en, depth+1)
+			if oo == 0 || (o != 0 && o != oo) {
+				return 0
+			}
+			o = oo
+		}
+		return o
 	case *ssa.BinOp:
 		// -1 * x
 		if _, isC := constInt(x.X); isC {
@@ -475,7 +474,7 @@ func ruleC07OpsCase(p *Prog, a *Anchors, r *Report, levels map[string]*gramLevel
 		ops := map[opTok]bool{}
 		nLevels := 0
 		for _, lv := range levels {
-			if allocatesNode(lv.fn, en.typ) {
+			if lv.allocatesNode(en.typ) {
 				nLevels++
 				for op := range lv.ops {
 					ops[op] = true
@@ -540,7 +539,25 @@ func ruleC07OpsCase(p *Prog, a *Anchors, r *Report, levels map[string]*gramLevel
 			sort.Strings(out)
 			return out
 		}
-		for _, b := range f.Blocks {
+		// a case may hand its operands to a method of the node (`return expr.modulo(ctx, f1, f2)`): the method's body
+		// is judged under the labels of its call sites; its parameters are what the call sites pass (operandOrdinal)
+		methods, msites := nodeMethods(p, f)
+		mlabels := methodLabels(f, methods, msites, labelsOfBlock)
+		isNodeMethod := map[*ssa.Function]bool{}
+		for _, m := range methods {
+			isNodeMethod[m] = true
+		}
+		labelsAt := func(b *ssa.BasicBlock) []string {
+			if b.Parent() == f {
+				return labelsOfBlock(b)
+			}
+			return mlabels[b.Parent()]
+		}
+		var caseBlocks []*ssa.BasicBlock
+		for _, fn := range append([]*ssa.Function{f}, methods...) {
+			caseBlocks = append(caseBlocks, fn.Blocks...)
+		}
+		for _, b := range caseBlocks {
 			for _, in := range b.Instrs {
 				switch x := in.(type) {
 				case *ssa.BinOp:
@@ -553,7 +570,7 @@ func ruleC07OpsCase(p *Prog, a *Anchors, r *Report, levels map[string]*gramLevel
 					if _, isC := x.Y.(*ssa.Const); isC {
 						continue // divisor == 0 etc.
 					}
-					ls := labelsOfBlock(b)
+					ls := labelsAt(b)
 					key := fmt.Sprintf("%s:%s %s", en.typ, strings.Join(ls, ","), typeName(x.X.Type()))
 					if len(ls) == 0 {
 						r.Unk(key, p.InstrPos(in), "numeric operation %s outside any operator case", x.Op)
@@ -587,7 +604,7 @@ func ruleC07OpsCase(p *Prog, a *Anchors, r *Report, levels map[string]*gramLevel
 					callee := x.Common().StaticCallee()
 					if callee != nil && p.extName(callee) == "math.Mod" {
 						// the float form of %: math.Mod(<first operand>, <second operand>) under the label %
-						ls := labelsOfBlock(b)
+						ls := labelsAt(b)
 						key := fmt.Sprintf("%s:%s math.Mod", en.typ, strings.Join(ls, ","))
 						o1, o2 := operandOrdinal(p, x.Common().Args[0], en, 0), operandOrdinal(p, x.Common().Args[1], en, 0)
 						switch {
@@ -609,7 +626,7 @@ func ruleC07OpsCase(p *Prog, a *Anchors, r *Report, levels map[string]*gramLevel
 					if m != "Before" && m != "After" && m != "Equal" {
 						continue
 					}
-					ls := labelsOfBlock(b)
+					ls := labelsAt(b)
 					key := fmt.Sprintf("%s:%s time.%s", en.typ, strings.Join(ls, ","), m)
 					okM := len(ls) > 0
 					for _, l := range ls {
@@ -652,7 +669,7 @@ func ruleC07OpsCase(p *Prog, a *Anchors, r *Report, levels map[string]*gramLevel
 				}
 				for _, in := range b.Instrs {
 					if ci, ok := in.(ssa.CallInstruction); ok {
-						if cal := ci.Common().StaticCallee(); cal != nil && p.InPkg(cal) && cal.Blocks != nil && cal.Signature.Recv() == nil {
+						if cal := ci.Common().StaticCallee(); cal != nil && p.InPkg(cal) && cal.Blocks != nil && (cal.Signature.Recv() == nil || isNodeMethod[cal]) {
 							fns[cal] = true
 							viaHelpers = append(viaHelpers, cal.Name())
 						}
@@ -885,6 +902,10 @@ func ruleC07ShortCircuit(p *Prog, a *Anchors, r *Report) {
 // divisor is reached only when the divisor was compared with zero and the zero edge left.
 func ruleDivisionGuards(p *Prog, a *Anchors, r *Report, rule string, evaluatorOnly bool) {
 	r.Begin(rule, "every division/modulo by a runtime value is reached only after the divisor was tested against zero; in the expression evaluator the zero edge returns an execution error", 3)
+	// in the evaluator: the Evaluate methods, and the methods of the same node type an Evaluate hands (part of) a case to
+	var targets []*ssa.Function
+	errorLost := map[*ssa.Function]bool{}
+	isTarget := map[*ssa.Function]bool{}
 	for _, f := range p.Funcs {
 		if evaluatorOnly && !(f.Name() == "Evaluate" && f.Signature.Recv() != nil) {
 			continue
@@ -892,6 +913,24 @@ func ruleDivisionGuards(p *Prog, a *Anchors, r *Report, rule string, evaluatorOn
 		if !evaluatorOnly && !a.ExecReach()[f] && !a.CompileReach()[f] {
 			continue
 		}
+		if !isTarget[f] {
+			isTarget[f] = true
+			targets = append(targets, f)
+		}
+		if evaluatorOnly {
+			handedOn, lost := evaluatorMethods(p, f)
+			for _, m := range lost {
+				errorLost[m] = true
+			}
+			for _, m := range append(handedOn, lost...) {
+				if !isTarget[m] {
+					isTarget[m] = true
+					targets = append(targets, m)
+				}
+			}
+		}
+	}
+	for _, f := range targets {
 		for _, b := range f.Blocks {
 			for _, in := range b.Instrs {
 				// a division: Go's / and %, and math.Mod (the float form of %)
@@ -962,7 +1001,9 @@ func ruleDivisionGuards(p *Prog, a *Anchors, r *Report, rule string, evaluatorOn
 							}
 						}
 					}
-					if zeroIf != nil && errorReturnsOnly(f, zeroIf.Block().Succs[zeroIdx]) {
+					if zeroIf != nil && errorReturnsOnly(f, zeroIf.Block().Succs[zeroIdx]) && errorLost[f] {
+						r.Bad(key, p.InstrPos(in), "the zero edge of the divisor test returns an error from %s, but a caller in the evaluator does not hand that error on", p.FuncName(f))
+					} else if zeroIf != nil && errorReturnsOnly(f, zeroIf.Block().Succs[zeroIdx]) {
 						r.OK(key, p.InstrPos(in), "guarded by a zero test whose zero edge returns an execution error")
 					} else {
 						r.Bad(key, p.InstrPos(in), "the zero edge of the divisor test does not return an error")
